@@ -192,6 +192,16 @@ def run(ctx):
                     chk.ob('A4', k, False, o.node.where(), f.name,
                            'exception for %s no longer applies: %s' % (o.text, sc_how))
                     continue
+            if not o.ok and f.internal:
+                okc, howc = proved_in_callers(prog, ba, f, o)
+                if okc:
+                    chk.ob('A4', k, True, o.node.where(), f.name, how=howc)
+                    continue
+            if not o.ok:
+                okc, howc = proved_in_own_view(prog, ba, f, o)
+                if okc:
+                    chk.ob('A4', k, True, o.node.where(), f.name, how=howc)
+                    continue
             chk.ob('A4', k, o.ok, o.node.where(), f.name, o.missing, how=o.how)
     chk.count('functions_analysed', nfun)
     chk.count('read_obligations', nreads)
@@ -427,6 +437,71 @@ def csv_side_condition(f, o):
                            store_base(type('O', (), {'node': e})) == arr)
     return ok, ('the store in the scan is reached only through the test of the current character against the counted one'
                 if ok else 'a store into the slot array inside the scan is not tied to meeting the counted character')
+
+
+_INL_OBLS = {}
+
+
+def proved_in_callers(prog, ba, f, o):
+    """an obligation of a file-local helper that cannot be proved from the helper alone (its parameters are anonymous
+    there) is proved if it holds in the inlined view of every function that calls the helper: there the arguments
+    are the callers' own buffers and lengths"""
+    from engine import inline
+    callers = [g for g in prog.functions if g.tu is f.tu and g is not f and g.calls(f.name)]
+    if not callers:
+        return False, ''
+    n = 0
+    for g in callers:
+        gi = inline.inlined(prog, g)
+        if gi is g or f.name not in getattr(gi, 'inlined_from', ()):
+            return False, ''
+        if g.key not in _INL_OBLS:
+            from engine.bounds import BoundsAnalysis
+            b2 = BoundsAnalysis(prog, ba.cg)
+            b2.field_bounds = ba.field_bounds
+            b2.global_facts = ba.global_facts
+            _INL_OBLS[g.key] = b2.analyse(gi)
+        same = [x for x in _INL_OBLS[g.key] if x.kind == o.kind and x.text == o.text and x.node.line == o.node.line and
+                f.name in (x.node.get('_chain') or ())]
+        if not same or not all(x.ok for x in same):
+            return False, ''
+        n += len(same)
+    return True, 'proved in the inlined view of every caller (%s): %d instance(s)' % (', '.join(g.name for g in callers), n)
+
+
+def _inl_obligations(prog, ba, g):
+    from engine import inline
+    gi = inline.inlined(prog, g)
+    if gi is g:
+        return None, None
+    if g.key not in _INL_OBLS:
+        from engine.bounds import BoundsAnalysis
+        b2 = BoundsAnalysis(prog, ba.cg)
+        b2.field_bounds = ba.field_bounds
+        b2.global_facts = ba.global_facts
+        _INL_OBLS[g.key] = b2.analyse(gi)
+    return gi, _INL_OBLS[g.key]
+
+
+def proved_in_own_view(prog, ba, f, o):
+    """an obligation of a function that hands part of its work to file-local helpers (what a helper returned is
+    unknown to it; a (buffer, size) contract was guessed for a helper that takes an offset) is proved if it holds in
+    the function's inlined view, where the helpers' statements stand in place of the calls"""
+    gi, obls = _inl_obligations(prog, ba, f)
+    if gi is None:
+        return False, ''
+    if o.text.startswith('contract '):
+        callee = o.text[len('contract '):].split('(')[0]
+        if callee not in getattr(gi, 'inlined_from', ()):
+            return False, ''
+        inside = [x for x in obls if callee in (x.node.get('_chain') or ())]
+        if all(x.ok for x in inside):
+            return True, 'the call is expanded in the inlined view: the %d obligation(s) of %s hold there' % (len(inside), callee)
+        return False, ''
+    same = [x for x in obls if x.kind == o.kind and x.text == o.text and x.node.line == o.node.line and not x.node.get('_chain')]
+    if same and all(x.ok for x in same):
+        return True, 'proved in the inlined view of %s (helpers: %s)' % (f.name, ', '.join(sorted(set(gi.inlined_from))))
+    return False, ''
 
 
 def side_condition(ctx, prog, f, o, row):
